@@ -12,10 +12,17 @@ EXPLANATION = (
     "bottom of the body exactly the formula stage A asserts there. The byte operations (add, overwrite, zero, "
     "extract, extract-and-add, extract-and-overwrite, init, copy) are enforced against contracts over the 40 "
     "canonical big-endian bytes (whole view: addressed bytes specified, all others unchanged) for every offset and "
-    "size that fits; their loops are bounded by 40 and fully unwound with unwinding assertions (complete)."
+    "size that fits; their loops are bounded by 40 and fully unwound with unwinding assertions (complete). "
+    "The x86-64 ASSEMBLY ascon_permute (the backend every default build on this host uses, and the one the test suite "
+    "exercises) is lifted to C instruction by instruction on every run by tools/lift_x86_64.py (what the extraction keeps, "
+    "drops and trusts is stated in that file and in the assumptions) and the same contract is enforced on the lifted "
+    "function for all 2^320 states and all start rounds 0..255: each label of the unrolled code is a cut point where the "
+    "registers rax, rcx, ~rdx, r8, r9 must equal ref_round of the previous cut; the first cut reached must be the one of "
+    "round first_round (the jump-table obligation); callee-saved registers are restored, the stack is balanced, and only "
+    "*state is written (assigns)."
 )
 ASSUMPTIONS = [
-    "x86-64 assembly permutation (src/core/ascon-asm-x86-64.S, the default backend on this host) is NOT covered: not C; no lifter was built",
+    "x86-64 assembly: verified through tools/lift_x86_64.py (trusted: its instruction table for movq/xorq/andq/notq/rorq/pushq/popq/cmpq+jge/jmp/ret and the leaq-movslq-addq-jmp* jump-table idiom; System V argument registers, first_round arriving zero-extended in rsi; gas assembling the text it is given; only the Linux/ELF preprocessor variant of prologue/epilogue). The other eleven assembly backends are not covered",
     "start rounds above 12 are outside the contract (the 32-bit backend forms the pointer RC + 2*first_round, which is only defined up to 12)",
 ]
 TRUSTED = []
@@ -43,6 +50,24 @@ def permute_groups(cfg, props=("C08",)):
     return gs
 
 
+ASM_SIG = ["--fn=ascon_permute:void:ascon_state_t * state,uint8_t first_round", "--fn=ascon_backend_free:void:ascon_state_t * state"]
+
+
+def asm_groups(props=("C08",), prefix="c08"):
+    """x86-64 assembly permutation, lifted on every run (DEF config = what the default build selects)."""
+    return [
+        Group(prefix + ".permute.x86_64_asm", props, "harness/h_permute_asm.c", "h_permute_asm", [], cfg="DEF",
+              enforce="ascon_permute", defs=["VERIF_ANY_FIRST_ROUND"], contracts=["contracts/c_permute_enforce.h"],
+              lift=("src/core/ascon-asm-x86-64.S", ASM_SIG), timeout=900, functions=["ascon_permute (x86-64 assembly, lifted)"],
+              expect_classes=["postcondition", "assigns", "assertion"],
+              note="every instruction of the assembly function is one C statement; cut points at the 13 round labels"),
+        Group(prefix + ".backend_free.x86_64_asm", props, "harness/h_permute_asm.c", "h_permute_asm", [], cfg="DEF",
+              enforce="ascon_backend_free", defs=["VERIF_BACKEND_FREE"], contracts=["contracts/c_backend_free.h"],
+              lift=("src/core/ascon-asm-x86-64.S", ASM_SIG), timeout=300, functions=["ascon_backend_free (x86-64 assembly, lifted)"],
+              expect_classes=["assertion"]),
+    ]
+
+
 def byteop_groups(cfg, props=("C08",), alias=True):
     gs = []
     for f in BYTEOPS:
@@ -62,6 +87,7 @@ def groups(tier):
     gs = []
     for cfg in (["C64", "C32"] if tier == "quick" else ["C64", "C32", "DX"]):
         gs += permute_groups(cfg)
-    for cfg in (["C64"] if tier == "quick" else ["C64", "DX"]):
+    gs += asm_groups()
+    for cfg in (["C64"] if tier == "quick" else ["C64", "DX", "DEF"]):
         gs += byteop_groups(cfg)
     return gs
